@@ -266,6 +266,31 @@ macro_rules! user_script_call {
             *$self.used += n;
             let (cur, r) = rest.split_at_mut(n);
             rest = r;
+            if op & 0x10 != 0 {
+                // buffer to buffer: private copy of the input, poisoned output
+                let tmp: Vec<Array<u8, BS>> = cur.to_vec();
+                for x in cur.iter_mut() {
+                    for y in x.iter_mut() {
+                        *y ^= 0x5A;
+                    }
+                }
+                match op & 0x0f {
+                    0 => {
+                        let (gi, _) = Array::<Array<u8, BS>, $B::ParBlocksSize>::slice_as_chunks(&tmp);
+                        let (go, _) = Array::<Array<u8, BS>, $B::ParBlocksSize>::slice_as_chunks_mut(cur);
+                        for (i, o) in gi.iter().zip(go.iter_mut()) {
+                            $backend.$par((i, o).into());
+                        }
+                    }
+                    2 => $backend.$block((&tmp[0], &mut cur[0]).into()),
+                    _ => {
+                        if !cur.is_empty() {
+                            $backend.$tail(InOutBuf::new(&tmp[..], cur).expect("harness: equal lengths"));
+                        }
+                    }
+                }
+                continue;
+            }
             match op {
                 0 | 1 => {
                     let (groups, _) = Array::<Array<u8, BS>, $B::ParBlocksSize>::slice_as_chunks_mut(cur);
@@ -304,7 +329,7 @@ impl<BS: BlockSizes> StreamCipherClosure for UserScript<'_, BS> {
             *self.used += n;
             let (cur, r) = rest.split_at_mut(n);
             rest = r;
-            match op / 2 {
+            match (op & 0x0f) / 2 {
                 0 => {
                     let (groups, _) = Array::<Array<u8, BS>, B::ParBlocksSize>::slice_as_chunks_mut(cur);
                     for g in groups {
